@@ -189,6 +189,7 @@ type seqResult struct {
 	nontrivial bool
 	infra      string
 	counts     map[string]int // per-request counters (sync_test.go)
+	hard       bool           // the violation rests on positive evidence that timing cannot produce (late_test.go): reported at once
 }
 
 func (r *seqResult) render() string {
